@@ -1,5 +1,5 @@
 SPECIFICATION Spec
 CHECK_DEADLOCK FALSE
 INVARIANT Order
-INVARIANT Inverse
+INVARIANT InverseLaw
 INVARIANT Arithmetic
